@@ -132,6 +132,17 @@ def generate(ctx):
             yield "block", dict(lo=lo, hi=lo + 50)
         i += 1
     ctx.exhausted[EXHAUSTIVE[0]] = True
+    # limb grid: for every block width b, every multiplier m and every triple of boundary block values, the number
+    # lead | hi | mid | lo with blocks aligned from the right - the inputs on which block-wise decimal arithmetic of any
+    # limb width loses or misplaces a carry
+    gi = 0
+    for b in list(range(1, 21)) + [32, 64]:
+        top = 10 ** b
+        for m in range(2, 10):
+            pool = sorted({0, 1, top - 1, top // m, top // m + 1, (top - 1) // m})
+            if ctx.mine(gi):
+                yield "limb_grid", dict(b=b, m=m, pool=[str(x) for x in pool])
+            gi += 1
     max_len = 1300
     for _ in range(ctx.pick(250, 2500)):
         kind = rng.choice(["random", "nines", "tenpow", "tenpow+d", "runs", "chain", "chain", "longchain", "machine", "limbs", "limbs", "limbs"])
@@ -205,6 +216,23 @@ def check_block(ctx, case):
                 _call(ctx, dsw, op, str(x), str(b))
 
 
+def check_limb_grid(ctx, case):
+    dsw = import_dsw()
+    b, m = case["b"], case["m"]
+    pool = [x.zfill(b) for x in case["pool"]]
+    n = 0
+    for hi in pool:
+        for mid in pool:
+            for lo in pool:
+                for lead in ("", "7"):
+                    s = (lead + hi + mid + lo).lstrip("0") or "0"
+                    for op in OPS:
+                        for base in ({str(m)} if op in ("mul", "div") else {str(m), "9"}):
+                            _call(ctx, dsw, op, s, base)
+                            n += 1
+    ctx.cls("limb grid|block width %d" % b)
+
+
 def check_numbers(ctx, case):
     dsw = import_dsw()
     for b in range(10):
@@ -264,7 +292,7 @@ def check_repo_tests(ctx, case):
     ctx.done("repo_tests", case, n > 0)
 
 
-CHECKS = {"repo_tests": check_repo_tests, "poison": check_poison, "block": check_block, "numbers": check_numbers, "one": check_one, "via_coding": check_via_coding}
+CHECKS = {"repo_tests": check_repo_tests, "limb_grid": check_limb_grid, "poison": check_poison, "block": check_block, "numbers": check_numbers, "one": check_one, "via_coding": check_via_coding}
 
 
 def reachable_states():
@@ -292,6 +320,9 @@ def floors(agg, tier):
         missing = [n for n in range(0, 21) if c.get("%s|chain %d" % (op, n), 0) == 0]
         if missing:
             out.append("%s: carry/borrow chain lengths never exercised: %s" % (op, missing))
+    for bw in (9, 15, 18, 64):
+        if c.get("limb grid|block width %d" % bw, 0) < 8:
+            out.append("limb grid for block width %d: %d of 8 multipliers" % (bw, c.get("limb grid|block width %d" % bw, 0)))
     for name, need in (("kind|limbs", 50), ("valid calls after a call with malformed text", 100)):
         if c.get(name, 0) < need:
             out.append("%s observed %d < %d" % (name, c.get(name, 0), need))
